@@ -1,6 +1,7 @@
 #!/bin/bash
 # Runs every seeded change under /verif/seeded against the check(s) of its property (quick tier) and records the outcome in
 # seeded/MATRIX.tsv.  Each change is applied to /repo's working tree, checked, and reverted (harness/mutest.sh).
+# *-control-* entries are harmless rewrites: exit 0 expected.
 # usage: harness/mutation_matrix.sh [id-prefix ...]
 cd /verif || exit 2
 out=${MATRIX_OUT:-seeded/MATRIX.tsv}
@@ -21,6 +22,7 @@ for d in seeded/*/; do
   prop=${id%%-*}
   extra=""
   [ "$id" = "C11-A" ] && extra="C07"
+  [ "$id" = "C09-control-vectorised" ] && extra="C01 C10"
   if ! (cd /repo && git apply --check "/verif/$d/patch.diff" 2>/dev/null); then
     printf "%s\t%s\t-\tpatch does not apply to the current tree (superseded, kept for the record)\n" "$id" "$prop" >> "$tmp"; continue
   fi
